@@ -44,6 +44,13 @@ CHECKS["C05"] = dict(
     ref="2/C05",
 )
 
+CHECKS["C11"] = dict(
+    technique="boundary-log monitor with unique sentinels: resolve(emitted path) must be identical to the delivered value (get-put law); non-assignable expressions must carry no path",
+    text="Model, event, change: and legacy event-attribute bindings and wx:for lists are bound to access chains (static/constant/data-dependent/nested indices), conditionals in head and tail position, script-module members (inline and external) and non-assignable expressions, at up to two levels of wx:for over path and non-path lists. Every leaf of data and modules is a unique sentinel, so identity of resolve(path) with the delivered value decides the property; conditionals are judged by the branch taken. Held on the bindings observed.",
+    note="Trusted: classification of assignability on the abstract expression; the reference module loader; the loader. Completeness (every assignable expression gets a path) is reported in evidence but not required by the property.",
+    ref="2/C11",
+)
+
 NOT_YET = {}
 
 
